@@ -144,8 +144,7 @@ class P:
         # keep to elements of the built-in model (the binary has no test extensions)
         from props.flowgen import TEST_EXT
         for k in TEST_EXT:
-            if k[0] != 0:
-                model.pop(k, None)
+            model.pop(k, None)
         cycles = 5 if tier == "quick" else 25
         try:
             tm = json.load(open(os.path.join(vf.ROOT, ".build", "extract.json")))["timing"]
